@@ -63,6 +63,14 @@ def run(chk):
         texts.append(t)
         if rng.random() < 0.15:
             texts += gen_check.all_prefixes(t)[-40:]
+    # sizes: many declared-but-unused variables (hundreds of diagnostics), long documents, very long lines; broken too
+    for i in range(0, min(len(texts), 4000), max(1, len(texts) // chk.size(40, 300))):
+        pv = gen_check.pad_vars(texts[i], rng)
+        if pv:
+            texts.append(pv)
+            texts += gen_check.broken_variants(pv, rng, 1)
+        if i % 3 == 0:
+            texts.append(gen_check.pad_text(texts[i], rng))
     texts = list(dict.fromkeys(texts))
     cases = [{"script": t, "positions": gen_check.all_positions(t, cap=(120 if chk.tier == "quick" else 400))} for t in texts]
     gos, models = A.analyze_both(cases)
